@@ -95,6 +95,7 @@ func verifC15_checkFiles(sa *bitmapSectorAllocator, files []*verifC15_model) {
 		}
 	}
 	rt.Assert(verifC15_freeSectors(sa) == verifC15_sectors-used, "every sector is either free or referenced by exactly one open file")
+	rt.Assert(len(sa.freeBitmap) == 1 && sa.freeBitmap[0]>>verifC15_sectors == 0, "no sector beyond the end of the device is ever marked free")
 }
 
 func verifHarness_C15_BlockDeviceFiles() {
